@@ -129,13 +129,24 @@ def direct_greens_function(
         from mumps import Context as MUMPSContext
     except ImportError:
         try:
-            solve = factorized(sparse.csc_matrix(mat))
+            solvers = {mat.dtype: factorized(sparse.csc_matrix(mat))}
         except RuntimeError as error:  # SuperLU: "Factor is exactly singular"
             raise ValueError(
                 "E - H is singular outside of the kernel vectors: the explicit"
                 " subspaces must not share eigenvalues with the rest of the"
                 " spectrum."
             ) from error
+
+        def solve(v: np.ndarray) -> np.ndarray:
+            # SuperLU needs the right-hand side in the precision of the
+            # factorization: factorize again if the vector is more precise than
+            # the Hamiltonian, e.g. float32 H_0 with a float64 perturbation.
+            dtype = np.promote_types(mat.dtype, v.dtype)
+            if dtype.kind not in "fc":
+                dtype = mat.dtype
+            if dtype not in solvers:
+                solvers[dtype] = factorized(sparse.csc_matrix(mat.astype(dtype)))
+            return solvers[dtype](v)
     else:
         ctx = MUMPSContext()
         # MUMPS does not support Hermitian matrices, so we use the symmetric only with real.
